@@ -3,11 +3,26 @@
 (behaviour-preserving rewrites of the code a property is anchored in) - used to measure false alarms of the checks."""
 import sys, json, subprocess, os
 pid = sys.argv[1]
+rnd = int(sys.argv[2]) if len(sys.argv) > 2 else 1
+base = 3 * (rnd - 1)
 p = [json.loads(l) for l in open('/verif/properties.jsonl') if json.loads(l)['id'] == pid][0]
 os.makedirs('/tmp/r', exist_ok=True)
 wt = '/tmp/r/%s' % pid
 if not os.path.exists(wt):
     subprocess.run(['git', '-C', '/repo', 'worktree', 'add', '-q', '-B', 'ref-' + pid, wt, 'main'], check=True)
+known = ''
+if rnd > 1:
+    import glob
+    items = []
+    for d in sorted(glob.glob('/verif/refactors/%s-*' % pid)):
+        try:
+            items.append('- ' + ' '.join(open(d + '/note.md').read().split())[:300])
+        except OSError:
+            pass
+    known = ('Refactors of this kind ALREADY exist - do something else (other functions of the anchored code and the helpers they call, '
+             'other styles: numpy idiom changes, dataclass/namedtuple for tuples, early returns, caching of pure values computed once per call, '
+             'splitting a long function, replacing loops by comprehensions, pathlib/os.path, f-strings, context managers, keyword-only '
+             'arguments with the same defaults, type hints, logging, defensive copies of inputs):\n' + '\n'.join(items) + '\n')
 mech = '\n'.join('- %s (%s)' % (m['name'], m['where']) for m in p['anchors'].get('mechanism', []))
 task = f"""You are helping to evaluate a verification tool. You get one semantic property of the Python library weaverba137/pydl
 (Python ports of IDL astronomy routines) and a private git worktree of the library at {wt} (the package is the `pydl/`
@@ -31,7 +46,7 @@ For each change write `check.py`, a standalone differential test that imports th
 of the package (make one with `git -C {wt} archive HEAD | tar -x -C <tmpdir>` BEFORE you edit, and import it under another
 name via importlib / sys.path manipulation, or run both in subprocesses) and the changed one, runs both on at least a few
 thousand generated inputs incl. edge cases, and exits 0 iff all outputs are identical.
-Deliver under /tmp/r/{pid}-out/1, /2, /3 each: `patch.diff` (`git diff` in the worktree, applicable with `git apply` to a clean
+{known}Deliver under /tmp/r/{pid}-out/{base+1}, /{base+2}, /{base+3} each: `patch.diff` (`git diff` in the worktree, applicable with `git apply` to a clean
 checkout), `check.py`, `note.md` (what the refactor is and why it is behaviour-preserving). Work on one change at a time and
 restore the worktree (`git -C {wt} checkout -- .`) before the next and at the end. Verify for each: full test-suite passes
 (`cd {wt} && /venv/bin/python -m pytest -q -p no:cacheprovider --timeout=900 pydl`, 133 passed) and your differential test
